@@ -102,7 +102,7 @@ func checkFilteredRead(r *Run, op string, f *btpb.RowFilter, base []ORow, resp r
 		return true
 	}
 	if required >= 0 {
-		r.Probe("c05.required_invalid", "c05.invalid_node_unreached")
+		r.Probe("c05.required_invalid")
 		if code != codes.InvalidArgument {
 			r.Fail("invalid-filter-accepted", "", "%s: evaluation of row %q reaches an invalid filter (%s) but the read ended with %v (%v)", op, base[required].Key, reqMsg, code, resp.Err)
 			return false
